@@ -13,6 +13,10 @@ def run(ctx):
     # as double-negation elimination, seed c06-f), else "built from the same description" and "different constructors are unequal" fail
     import maps as _m2
     _m2.rule_M_CTOR(ctx)
+    # naming-law lints over the modules this property lives in (sibling slips: truth<->budget, stamp<->punctuation, left<->right, swapped arguments)
+    import roles as _roles
+    _roles.rule_R_ROLE(ctx, modules=('enum_narsese::',))
+    _roles.rule_A_NAMES(ctx, modules=('enum_narsese::',))
     ctx.undecided = []
     ctx.assumptions = ["std Hash for String/usize/str/Box<T> is a function of the value", "DefaultHasher::new() uses fixed keys (deterministic)",
                        "equal components hash equally (induction hypothesis; base case = std types)"]
